@@ -57,6 +57,12 @@ func (o *ExpressionOptimizer) tryReorderBinaryOp(e *BinaryOpExpr) {
 	if e.Op != Add && e.Op != Mul {
 		return
 	}
+	// Only text concatenation is associative. With numbers (x + 0.1) + 0.2
+	// and x + (0.1 + 0.2) are different values, (x * 0) * 2.0 is 0 where
+	// x * (0 * 2.0) is -0 for a negative x
+	if e.ReturnType() != TSTR {
+		return
+	}
 
 	if !leftIsValue && leftIsOp && rightIsValue && !rightIsOp {
 		// fmt.Println("DEBUG:", e)
